@@ -49,7 +49,7 @@ def dispatch (p : Params) (st : DState) (line : String) : DState × String :=
     if op.startsWith "msg." then (st, C01.run p.maxPayload ws)
     else if op.startsWith "conv" then (st, C20.run ws)
     else if op.startsWith "session." then (st, C19.run ws)
-    else if op == "c07" then (st, C07.run p.maxPayload ws)
+    else if op == "c07" || op == "c07.deep" then (st, C07.run p.maxPayload ws)
     else if op == "c07.idl" then (st, "ok-or-err")
     else if op.startsWith "sig." then (st, C09.run ws)
     else if op.startsWith "rd." || op.startsWith "val." || op.startsWith "enc." || op.startsWith "dec." then
